@@ -27,6 +27,65 @@ CLAIMED = {
         "technique": "Lean 4 proof over hand-written model (parametric in the value hook) + exhaustive differential correspondence",
         "design_ref": "DESIGN.md §6 C03",
     },
+    "C04": {
+        "text": "Lean 4 theorems (Props/C04.lean) prove for every column list (every field type), check list and state that validate_row accepts a row iff "
+                "the item count matches, every cell is accepted by its column and no check vetoes; that a field error names the first rejected column "
+                "(all earlier cells accepted); that a count error consults nothing; and (with C06_yield_order) that every yielded error carries the line of its "
+                "raw row. The engine model is tied to /repo by random CIDs x tables read through the real Reader in delimited and fixed format.",
+        "note": "Trusted: Lean kernel; Engine.validateRow/readLoop as a faithful transcription of validio.py (sampled by correspondence, including error "
+                "location, culprit column, message naming the field, location text); ODS/XLSX containers are covered by C15/C16, not here.",
+        "technique": "Lean 4 proof over parametric engine model + differential correspondence",
+        "design_ref": "DESIGN.md §6 C04",
+    },
+    "C05": {
+        "text": "Lean 4 theorems (Props/C05.lean): for every sequence of rows reaching an IsUnique check, the next row is rejected iff an earlier row the check "
+                "let pass has the same key, the error refers to the first such row (C05_unique_verdict + C05_lookupKey_spec), rejected rows never register a key; "
+                "DistinctCount's end verdict compares the number of distinct values among the rows that reached it with the threshold for all six operators "
+                "(C05_distinct). The statement is also evaluated directly on the implementation's traces.",
+        "note": "Trusted: Lean kernel; Checks model faithfulness (correspondence); DistinctCount expressions beyond `field <cmp> <int>` are outside the model. "
+                "Known finding: with several vetoing checks IsUnique registers keys of rows a later check rejects (C05_unique_accepted_counterexample).",
+        "technique": "Lean 4 proof (state invariant over row sequences) + differential correspondence + direct statement check on traces",
+        "design_ref": "DESIGN.md §6 C05",
+    },
+    "C06": {
+        "text": "Lean 4 theorems (Props/C06.lean) prove, for every table, header/limit setting, column and check list and starting state: continue = accepted rows "
+                "of yield (same final state and calls), raise = rows before the first rejection of yield then that same error, yield has exactly one event per data "
+                "row in order located at its line, accepted+rejected = number of data rows, a container fault ends every mode with a data-format error. "
+                "Tied to /repo by running all three modes through Reader and cutplace.rows on generated CIDs/tables with and without faults.",
+        "note": "Trusted: Lean kernel; readLoop as transcription of Reader.rows (correspondence); container faults are injected as unterminated quote / short record "
+                "after the last row only.",
+        "technique": "Lean 4 proof by induction over the row list + differential correspondence + relational checks between runs",
+        "design_ref": "DESIGN.md §6 C06",
+    },
+    "C07": {
+        "text": "Lean 4 theorems (Props/C07.lean): header rows have no effect whatever they contain (C07_header_skip/_blind), rows beyond the limit are returned "
+                "unchanged with no call and counted as accepted (C07_beyond_limit, C07_zero), every reported error lies after the header and within the limit "
+                "(C07_errors_in_window), --until mapping (C07_cli_until). Correspondence: exhaustive header x limit x bad-row position sweep through cutplace.rows, "
+                "Reader and cutplace.validate.",
+        "note": "Trusted: Lean kernel; model faithfulness (correspondence); the command line --until path is exercised in C18.",
+        "technique": "Lean 4 proof + exhaustive boundary sweep (header, limit, position) as correspondence",
+        "design_ref": "DESIGN.md §6 C07",
+    },
+    "C08": {
+        "text": "Lean 4 theorems (Props/C08.lean): a started read and a writer behave identically from every check state (C08_reader_fresh, C08_writer_fresh, "
+                "C08_run_fresh) and every run of any history equals the same run on a fresh CID (C08_history_partial, all histories without validate(limit=0)); "
+                "C08_validate0_counterexample proves the excluded case really depends on earlier state. Correspondence: all histories up to length 3 (quick) / 4 "
+                "(thorough) over 8 operations x 2 CIDs, each run compared with the same run on a fresh CID and with the model.",
+        "note": "Trusted: Lean kernel; that Reader.rows/Writer.__init__ reset every check as the model says (correspondence). Known finding: validate(limit=0).",
+        "technique": "Lean 4 proof (state independence) + exhaustive history enumeration as correspondence",
+        "design_ref": "DESIGN.md §6 C08",
+    },
+    "C20": {
+        "text": "Lean 4 theorems (Props/C20.lean) characterise the call log of the engine model for every configuration: per row hooks in column order up to the "
+                "first rejected cell and only for cells passing the guards, checks in declaration order up to the first veto and only if all cells passed "
+                "(C20_row_log, C20_hook_precondition), resets once first (C20_resets_first), no calls outside header/limit window, end verdicts in order up to the "
+                "first failure then cleanup of all (C20_close_protocol), class-name resolution (C20_resolution). Correspondence: recording plugin classes in the "
+                "harness process, recorded call sequence vs model log for readers, writers and repeated runs; import_plugins() in a subprocess.",
+        "note": "Trusted: Lean kernel; model faithfulness (correspondence); resolution is checked on the implementation directly, its Lean statement is about the "
+                "naming rule only.",
+        "technique": "Lean 4 proof about the instrumented engine model + call-log differential correspondence",
+        "design_ref": "DESIGN.md §6 C20",
+    },
 }
 
 NOT_YET = {
